@@ -50,6 +50,10 @@ def engines():
     E['feedback-mid'] = [A('ta', 'a', svs=sv2(), fb=[('tb', 'b', 's', 'x')]),
                          A('tb', 'b', inputs=[('ta', 'a', 's', 'x')], svs=sv2()),
                          A('tc', 'c', inputs=[('tb', 'b', 's', 'y')], svs=sv2())]
+    # the fed-back value is also an ordinary input of a downstream consumer
+    E['feedback-shared'] = [A('ta', 'a', svs=sv2(), fb=[('tb', 'b', 's', 'x')]),
+                            A('tb', 'b', inputs=[('ta', 'a', 's', 'x')], svs=sv2()),
+                            A('tc', 'c', inputs=[('tb', 'b', 's', 'x')], svs=sv2())]
     E['join'] = [A('ta', 'a', svs=sv2()), A('tb', 'b', svs=sv2()),
                  A('tc', 'c', inputs=[('ta', 'a', 's', 'x'), ('tb', 'b', 's', 'y')], svs=sv2())]
     E['regress-leaf'] = [A('ta', 'a', svs=sv2()),
